@@ -2,14 +2,14 @@
 C16 — exactness of the lookup counters (counter = number of records) on histories that never
 store over an existing record.
 -/
-import PvProofs.Lemmas.AttrStale
+import PvProofs.Lemmas.AttrStep
 
 set_option linter.unusedSimpArgs false
 set_option linter.unusedVariables false
 
 namespace PvProofs.Lemmas.AttrExact
-open PvModel.Attr PvProofs.Lemmas.AttrStore PvProofs.Lemmas.AttrInv PvProofs.Lemmas.AttrStep
-  PvProofs.Lemmas.AttrStale
+open PvModel.Attr PvProofs.Lemmas.AttrStore PvProofs.Lemmas.AttrInv PvProofs.Lemmas.AttrSweep
+  PvProofs.Lemmas.AttrStep
 
 def CntEq (s : State) : Prop := ∀ n a, count s n a = getCnt s n a
 
@@ -176,12 +176,12 @@ theorem foldl_purgeAcct_cntEq (n : String) (xs : List String) :
     simp only [List.foldl_cons]
     exact ih _ (purgeAcct_inv3 n x hi) (purgeAcct_cntEq n x hi.keys h)
 
-theorem expireOne_cntEq {s : State} (q : Nat × Key) (hk : KeysUnique s.recs) (h : CntEq s) :
-    CntEq (expireOne s q) := by
+theorem expireOnePreFix_cntEq {s : State} (q : Nat × Key) (hk : KeysUnique s.recs) (h : CntEq s) :
+    CntEq (expireOnePreFix s q) := by
   cases hg : getAttr s q.2 with
   | none =>
     intro n x
-    obtain ⟨e1, e2⟩ := expireOne_none hg
+    obtain ⟨e1, e2⟩ := expireOnePreFix_none hg
     rw [count_congr e2, getCnt_congr e1]
     exact h n x
   | some a =>
@@ -191,10 +191,16 @@ theorem expireOne_cntEq {s : State} (q : Nat × Key) (hk : KeysUnique s.recs) (h
     rw [getCnt_deleteOne] at hd
     have hc : count (deleteOne s a) n x = count (delRec s a.key) n x := count_congr (by simp) n x
     rw [hc] at hd
-    rw [count_congr (expireOne_some_recs hg), getCnt_congr (expireOne_some_cnt hg), ← hka, getCnt_dec]
+    rw [count_congr (expireOnePreFix_some_recs hg), getCnt_congr (expireOnePreFix_some_cnt hg), ← hka, getCnt_dec]
     have h2 : ∀ n x, getCnt (delRec s a.key) n x = getCnt s n x := fun n x => getCnt_congr rfl n x
     simp only [h2]
     exact hd
+
+theorem expireOne_cntEq {s : State} (q : Nat × Key) (hk : KeysUnique s.recs) (h : CntEq s) :
+    CntEq (expireOne s q) := by
+  rcases expireOne_cases s q with ⟨a, _, _, he⟩ | ⟨_, he⟩
+  · rw [he]; exact expireOnePreFix_cntEq q hk h
+  · rw [he]; exact h
 
 theorem foldl_expireOne_cntEq (l : List (Nat × Key)) :
     ∀ s : State, Inv s → CntEq s → CntEq (l.foldl expireOne s) := by
